@@ -163,6 +163,7 @@ pub fn profile(prop: &str) -> Profile {
             p.prop = "C17";
             p.w[W_REWIND] = 14;
             p.w[W_CLEAR] = 5;
+            p.w[W_FLUSH] = 4;
             p.w[W_SETMIN] = 3;
             p.w[W_DISCARD] = 2;
             p.w[W_INCDISC] = 2;
@@ -293,6 +294,13 @@ pub fn gen_cfg(rng: &mut Rng, p: &Profile) -> Cfg {
     if p.prop == "C03" && rng.chance(1, 2) {
         c.max_align = *rng.pick(&[16usize, 64]);
     }
+    // clear() / rewind over several pages of a real mapping (page locks, madvise-style shortcuts)
+    if p.prop == "C17" && rng.chance(1, 8) {
+        c.cap = rng.range(4096, 20000) as u32;
+        if c.backend == Backend::Vec && rng.chance(2, 3) {
+            c.backend = Backend::Anon;
+        }
+    }
     // a file-backed arena always uses the unified layout, whatever `with_unify` says: both values are generated.
     // Single-client file histories also map at page-multiple offsets inside the file.
     if c.backend == Backend::File && matches!(p.prop, "C01" | "C03" | "C05" | "C08" | "C10" | "C13" | "C17" | "C18" | "C20") {
@@ -325,6 +333,8 @@ pub fn next_op(rng: &mut Rng, p: &Profile, cfg: &Cfg, v: &View) -> Op {
     }
     if cfg.backend != Backend::File {
         w[W_REOPEN] = 0;
+    }
+    if cfg.backend == Backend::Vec {
         w[W_FLUSH] = 0;
     }
     if cfg.sync {
@@ -381,7 +391,7 @@ pub fn next_op(rng: &mut Rng, p: &Profile, cfg: &Cfg, v: &View) -> Op {
         W_CLEAR => Op::Clear,
         W_CLONE => Op::CloneArena { from: arena },
         W_DROPARENA => Op::DropArena { k: arena },
-        W_FLUSH => Op::Flush(rng.below(5) as u8),
+        W_FLUSH => Op::Flush(rng.below(7) as u8),
         W_REOPEN => {
             let modes: Vec<u8> = (0..4).filter(|m| p.reopen_modes & (1 << m) != 0).collect();
             if modes.is_empty() {
